@@ -8,7 +8,7 @@ use crate::shapes::*;
 use dlt_core::dlt::*;
 use dlt_core::filtering::ProcessedDltFilterConfig;
 use dlt_core::parse::{dlt_consume_msg, dlt_message, DltParseError, ParsedMessage};
-use std::collections::HashSet;
+use dlt_core::filtering::verif_hooks::HashSet; // vector-backed model of the id sets (DESIGN.md 9.7)
 
 #[derive(Clone, Copy, PartialEq)]
 pub enum FilterMode {
